@@ -24,6 +24,7 @@ import (
 	"github.com/pkg/errors"
 	"github.com/tikv/client-go/v2/config"
 	"github.com/tikv/client-go/v2/internal/logutil"
+	"github.com/tikv/client-go/v2/internal/simhook"
 	"github.com/tikv/client-go/v2/metrics"
 	"github.com/tikv/client-go/v2/util"
 	"go.uber.org/zap"
@@ -216,6 +217,7 @@ func (a *batchConn) batchSendLoop(cfg config.TiKVClient) {
 	for {
 		sendLoopStartTime := time.Now()
 		a.reqBuilder.reset()
+		simhook.Yield("batch.send.head")
 
 		headRecvTime, headArrivalInterval := a.fetchAllPendingRequests(int(cfg.MaxBatchSize))
 		if a.reqBuilder.len() == 0 {
@@ -270,6 +272,7 @@ const (
 )
 
 func (a *batchConn) getClientAndSend() {
+	simhook.Yield("batch.send.fetched")
 	if val, err := util.EvalFailpoint("mockBatchClientSendDelay"); err == nil {
 		if timeout, ok := val.(int); ok && timeout > 0 {
 			time.Sleep(time.Duration(timeout * int(time.Millisecond)))
